@@ -1,0 +1,5 @@
+//go:build !verif
+
+package rtsp
+
+func verifPoint(name string, obj interface{}) {}
